@@ -1184,6 +1184,9 @@ func (check typecheck) convertUntyped(n *node, typ *itype) error {
 		n.typ = typ
 		return nil
 	case isNumber(ttyp) || isString(ttyp) || isBoolean(ttyp):
+		if n.typ.isNil() {
+			return convErr
+		}
 		ityp = typ
 		rtyp = ttyp
 	case isInterface(typ):
